@@ -247,8 +247,20 @@ deriving Repr, DecidableEq, Inhabited
 def findRate (rates : List XRate) (f t : String) : Option XRate :=
   rates.find? (fun r => r.from == f && r.to == t)
 
-/-- `ExchangeRate.Convert` -/
-def convert (r : XRate) (a : Amount) : Amount := o.rescale (o.mul a r.amount) r.toSub
+/-- `ExchangeRate.Convert` (as repaired by 6f2aa78): one rounding, by `Multiply`,
+    at the destination currency's precision.  An amount finer than that hands
+    its extra decimals to the rate (`MakeAmount(rate.Value(), rate.Exp()+extra)`,
+    `MakeAmount(amount.Value(), exp)`), a coarser one is raised first
+    (`RescaleUp`, integer scaling); there is no `Rescale` any more. -/
+def convert (r : XRate) (a : Amount) : Amount :=
+  let exp := r.toSub
+  if a.exp > exp then
+    let extra := a.exp - exp
+    let rate : Amount := ⟨r.amount.value, r.amount.exp + extra⟩
+    let amount : Amount := ⟨a.value, exp⟩
+    o.mul (up amount exp) rate
+  else
+    o.mul (up a exp) r.amount
 
 def itemPrice (cur : String) (c : Nat) (rates : List XRate) (it : Item) (price : Amount) :
     Except CalcErr Item :=
